@@ -15,7 +15,7 @@ export VERIF_REPO=$WT VERIF_EVIDENCE_DIR=/tmp/ev-seeded-all
 for d in /verif/seeded/C*/; do
   id=$(basename $d)
   row=$(grep -a "^| $id |" /verif/seeded/RESULTS.md | head -1)
-  chk=$(echo "$row" | awk -F'|' '{print $5}' | grep -o '\*\*C[0-9][0-9]\*\*' | head -1 | tr -d '*')
+  chk=$(echo "$row" | grep -o '\*\*C[0-9][0-9]\*\*' | head -1 | tr -d '*')
   if [ -z "$chk" ]; then echo "seeded=$id skipped (no catching check named in RESULTS.md)" >> "$OUT"; continue; fi
   /verif/tools/seeded.sh $id $chk 2>&1 | cut -c1-260 >> "$OUT"
 done
